@@ -165,7 +165,90 @@ def h_select_all(ctx, case):
     return 'ok'
 
 
+def _cli_setup(case, mode):
+    _ss_setup(case, mode)
+    import cell_type_mapper.cli.query_markers as CLI
+    import cell_type_mapper.type_assignment.marker_cache_v2 as MC
+    from harness.common import patch
+    patch(CLI, 'print', lambda *a, **k: None)
+    patch(MC, 'print', lambda *a, **k: None)
+
+
+def h_cli_override(ctx, case):
+    """the query-marker command line runner (QueryMarkerRunner.run with a
+    fully specified argument dict): a per-parent override of the target,
+    given as ('level/node', n), has the effect of that override in the
+    selection function"""
+    import json
+    import os
+    import shutil
+    from symx import mpmodel
+    from harness import selstage as SS
+    import cell_type_mapper.cli.query_markers as CLI
+    import cell_type_mapper.type_assignment.marker_cache_v2 as MC
+    lk = SS.lookup_files()
+    if not os.path.exists(lk['recorded']):
+        shutil.copy(lk['kept'], lk['recorded'])
+    if os.path.exists(lk['neighbour']):
+        os.unlink(lk['neighbour'])
+    parent = [None, ('class', 'A'), ('class', 'B')][
+        ctx.choice('override_parent', 3)]
+    n = [0, 2][ctx.choice('override_target', 2)]    # default is 1
+    nproc = 1 + ctx.choice('n_processors-1', 2)
+    key = 'None' if parent is None else f"{parent[0]}/{parent[1]}"
+    scratch = os.path.join(lk['root'], 'scratch')
+    out = os.path.join(lk['root'], 'keep', 'cli_markers.json')
+    args = dict(query_path=None, reference_marker_path_list=[lk['marker']],
+                n_per_utility=1, n_per_utility_override=[(key, n)],
+                n_processors=nproc, tmp_dir=scratch, drop_level=None,
+                genes_at_a_time=1, search_for_stats_file=False,
+                output_path=out, input_json=None, output_json=None,
+                log_level='ERROR')
+    runner = CLI.QueryMarkerRunner.__new__(CLI.QueryMarkerRunner)
+    runner.args = args
+    mpmodel.SCHED.reset(K=0)
+    try:
+        runner.run()
+        got = json.load(open(out))
+    except Exception as e:
+        ctx.exception(e)
+        return 'EXC ' + type(e).__name__
+
+    def direct(override):
+        mpmodel.SCHED.reset(K=0)
+        return MC.create_marker_gene_lookup_from_ref_list(
+            reference_marker_path_list=[lk['marker']],
+            query_gene_names=list(SS.RM.GENES), n_per_utility=1,
+            n_per_utility_override=override, n_processors=1,
+            behemoth_cutoff=5000000, tmp_dir=scratch)
+
+    def strip(x):
+        return {k: sorted(v) for k, v in x.items()
+                if k not in ('log', 'metadata')}
+    want = strip(direct({parent: n}))
+    plain = strip(direct(None))
+    ctx.reach('ran')
+    if want != plain:
+        ctx.reach('override matters')
+    ctx.check(strip(got) == want, f'the override ({key}, {n}) given on the '
+              'command line has the effect of that override in the '
+              'selection')
+    return 'ok'
+
+
 HARNESSES = [
+    Harness('query_marker_cli_overrides', h_cli_override, setup=_cli_setup,
+            cases=[{}],
+            funcs=['cli.query_markers.QueryMarkerRunner.run',
+                   'marker_cache_v2.create_marker_gene_lookup_from_ref_list',
+                   'selection_pipeline.select_all_markers'],
+            stubs=['argschema parsing -> fully specified argument dict '
+                   '(QueryMarkerRunner.__new__)',
+                   'multiprocessing -> scheduler model'],
+            bounds='real marker file (5 clusters / 6 genes); override of '
+                   'the target (0 or 2, default 1) at the root or at '
+                   'either class; 1-2 workers',
+            expect_reach=['ran', 'override matters']),
     Harness('select_all_markers_stage', h_select_all, setup=_ss_setup,
             cases=[{'vary_genes': ['g0', 'g3', 'g5'], 'target': 2},
                    {'vary_genes': ['g1'], 'target': 1}],
